@@ -144,6 +144,22 @@ def carg? (ps : List (Nat × Val)) (t : String) : Option CArg :=
 
 def cargs? (ps : List (Nat × Val)) (t : String) : Option (List CArg) := (splitList t).mapM (carg? ps)
 
+/-- comparefn `function(x,y){return x-y}`: otto's toIntSign of the difference (±Infinity and NaN count as 0) -/
+def numCmpModel (x y : Val) : Int :=
+  match sub (toFloat env x) (toFloat env y) with
+  | .fin s m _ => if m = 0 then 0 else if s then -1 else 1
+  | _ => 0
+/-- the sign ES5 sees -/
+def numCmpSpec (x y : Val) : Int :=
+  match sub (Spec.toNumber env x) (Spec.toNumber env y) with
+  | .fin s m _ => if m = 0 then 0 else if s then -1 else 1
+  | .inf s => if s then -1 else 1
+  | .nan => 0
+/-- comparefn `function(x,y){return x<y?-Infinity:(x>y?Infinity:0)}` -/
+def infCmpSpec (x y : Val) : Int :=
+  if lt (Spec.toNumber env x) (Spec.toNumber env y) then -1
+  else if lt (Spec.toNumber env y) (Spec.toNumber env x) then 1 else 0
+
 /-- `name!` = the same method called with a non-callable first argument -/
 def splitBang (name : String) : String × Bool :=
   if name.endsWith "!" then ((name.dropEnd 1).toString, false) else (name, true)
@@ -173,6 +189,9 @@ def modelMethod (ps : List (Nat × Val)) (name : String) (argTok : String) : Opt
     | "filter" => some (filter O callable)
     | "reduce" => some (reduce O callable args)
     | "reduceRight" => some (reduceRight O callable args)
+    | "sort" => some (sort O env true none)
+    | "sortNum" => some (sort O env true (some numCmpModel))
+    | "sortInf" => some (sort O env true (some fun _ _ => 0))      -- toIntSign(±Infinity) = 0
     | _ => none
 
 def specMethod (ps : List (Nat × Val)) (name : String) (argTok : String) : Option (M St Ret) :=
@@ -200,6 +219,9 @@ def specMethod (ps : List (Nat × Val)) (name : String) (argTok : String) : Opti
     | "filter" => some (Spec.filter O callable)
     | "reduce" => some (Spec.reduce O callable args)
     | "reduceRight" => some (Spec.reduceRight O callable args)
+    | "sort" => some (Spec.sort O env true none)
+    | "sortNum" => some (Spec.sort O env true (some numCmpSpec))
+    | "sortInf" => some (Spec.sort O env true (some infCmpSpec))
     | _ => none
 
 def modelSide : Side :=
@@ -324,6 +346,11 @@ def stepDev (o : Obj) (t : String) : List String :=
     | "reduceRight", some args =>
       (if args.length = 0 ∧ len > 0 ∧ present () = 0 then ["reduce_no_element"] else [])
         ++ (if present () ≥ (if args.length = 0 then 2 else 1) then ["reduceRight_index_string"] else [])
+    | "sortInf", some _ =>
+      -- the comparefn returns ±Infinity for some pair: two present defined values that are not numerically equal
+      let vals := (List.range len).filterMap fun k =>
+        if O.has s k ∧ O.get s k ≠ .undef then some (O.get s k) else none
+      if vals.any (fun x => vals.any (fun y => infCmpSpec x y != 0)) then ["sort_comparator_infinite"] else []
     | "concat", _ =>
       match cargs? o.proto argTok with
       | some items =>
